@@ -244,3 +244,54 @@ def _e17(y, P):
     E = _ed()
     xr = E.f_xrec(y)
     return z3.Implies(z3.And(E.f_y(P) == y), z3.And(E.f_oncurve(xr, y), z3.Or(xr == E.f_x(P), xr == (E.Q - E.f_x(P)) % E.Q)))
+
+
+# ---- vocabulary facts of the Ed25519 spec layer (pyvc/spec_ed.py asserts exactly these instances) ---------------------------
+# EPt = affine points of the curve with coordinates represented in [0,Q); ed_valid / ed_pt / ed_aff relate coordinate
+# tuples to them.  In Lean: Curve, Valid, edPt, edAff (BridgeVocab.lean); each schema below is proved there (bridge).
+@lemma("voc_O_coords", 0, True, "the identity is (0,1)")
+def _v1():
+    E = _ed()
+    return z3.And(E.f_x(E.c_O) == 0, E.f_y(E.c_O) == 1)
+
+
+@lemma("voc_coords_range", 1, True, "coordinates are represented in [0,Q)")
+def _v2(P):
+    E = _ed()
+    return z3.And(E.f_x(P) >= 0, E.f_x(P) < E.Q, E.f_y(P) >= 0, E.f_y(P) < E.Q)
+
+
+@lemma("voc_valid_reduced", 4, True, "a valid extended representation has reduced coordinates, Z != 0, and a valid T-free part")
+def _v3(X, Y, Z, T):
+    E = _ed()
+    return z3.Implies(E.f_valid(X, Y, Z, T), z3.And(X >= 0, X < E.Q, Y >= 0, Y < E.Q, Z > 0, Z < E.Q, T >= 0, T < E.Q, E.f_valid3(X, Y, Z)))
+
+
+@lemma("voc_B_def", 0, True, "B is the RFC 8032 base point")
+def _v4():
+    E = _ed()
+    return E.c_B == E.f_aff(sym.IV(E.B_X), sym.IV(E.B_Y))
+
+
+@lemma("voc_point_on_curve", 1, True, "every point satisfies the curve equation")
+def _v5(P):
+    E = _ed()
+    return E.f_oncurve(E.f_x(P), E.f_y(P))
+
+
+@lemma("voc_point_aff", 1, True, "a point is the affine point of its coordinates")
+def _v6(P):
+    E = _ed()
+    return E.f_aff(E.f_x(P), E.f_y(P)) == P
+
+
+@lemma("voc_point_ext", 2, True, "equal coordinates, equal points")
+def _v7(P, R):
+    E = _ed()
+    return z3.Implies(z3.And(E.f_x(P) == E.f_x(R), E.f_y(P) == E.f_y(R)), P == R)
+
+
+@lemma("voc_aff_O", 0, True, "aff(0,1) is the identity")
+def _v8():
+    E = _ed()
+    return E.f_aff(sym.IV(0), sym.IV(1)) == E.c_O
